@@ -510,6 +510,12 @@ fn plan_inner(id: &str, tier: &str, seed: u64, round: u64) -> Plan {
                     specs.push(gen::gen_repr(&mut rg, *r, &derives(&["FromRepr"])));
                 }
             }
+            // long runs of implicit discriminants (every value of the repr is still tried for 8/16 bits)
+            if round == 0 {
+                let at = specs.len();
+                specs[at - 1] = gen::gen_repr_large(&mut rg, "u8", 140);
+                specs[at - 2] = gen::gen_repr_large(&mut rg, "i16", 70);
+            }
             name_specs(&mut specs, round);
             Plan {
                 specs,
